@@ -883,7 +883,7 @@ pub fn drive_dual(a: &Args, thorough: bool) {
         }
         n += 1;
     }
-    for _ in 0..(if thorough { 240000 } else { 1500 }) {
+    for _ in 0..(if thorough { 120000 } else { 1500 }) {
         sh.next_unit();
         let al = alphabet(&mut rng);
         let la = pick_bh_len(&mut rng, 64);
